@@ -1,6 +1,6 @@
 //! M5 — register-file probes (x86-64 System V).
 //!
-//! `vprobe_call` loads the six integer argument registers, xmm0-7, four stack arguments, the
+//! `vprobe_call` loads the six integer argument registers, xmm0-7 (ymm0-7 where the CPU has AVX), four stack arguments, the
 //! callee-saved set and rax/r10/r11 from the static record VPROBE_IN, puts canaries above the
 //! outgoing stack arguments, calls the target through a memory operand (`call [rip+VPROBE_TARGET]`,
 //! so no register is sacrificed) and afterwards stores everything into VPROBE_OUT.
@@ -38,12 +38,13 @@ pub struct Regs {
     pub canary_a: u64,   // 312
     pub canary_b: u64,   // 320
     pub pad: u64,        // 328
+    pub ymm_hi: [[u64; 2]; 8], // 336..464 (bits 128..255 of ymm0-7; used only when the CPU has AVX)
 }
-pub const REGS_SIZE: usize = 336;
+pub const REGS_SIZE: usize = 464;
 
 impl Regs {
     pub const fn zero() -> Regs {
-        Regs { rdi: 0, rsi: 0, rdx: 0, rcx: 0, r8: 0, r9: 0, rbx: 0, rbp: 0, r12: 0, r13: 0, r14: 0, r15: 0, rax: 0, rdx2: 0, rsp: 0, retaddr: 0, xmm: [[0; 2]; 8], stack: [0; 4], rflags: 0, r10: 0, r11: 0, canary_a: 0, canary_b: 0, pad: 0 }
+        Regs { rdi: 0, rsi: 0, rdx: 0, rcx: 0, r8: 0, r9: 0, rbx: 0, rbp: 0, r12: 0, r13: 0, r14: 0, r15: 0, rax: 0, rdx2: 0, rsp: 0, retaddr: 0, xmm: [[0; 2]; 8], stack: [0; 4], rflags: 0, r10: 0, r11: 0, canary_a: 0, canary_b: 0, pad: 0, ymm_hi: [[0; 2]; 8] }
     }
 }
 
@@ -55,6 +56,7 @@ extern "C" {
     pub static mut VPROBE_TARGET: u64;
     pub static mut VPROBE_SAVED_RSP: u64;
     pub static mut VPROBE_FAKE_ENTRIES: u64;
+    pub static mut VPROBE_AVX: u64;
     pub fn vprobe_call();
     pub fn vprobe_fake();
     pub fn vprobe_after_call();
@@ -65,19 +67,21 @@ global_asm!(
     .bss
     .balign 16
     .global VPROBE_IN
-VPROBE_IN: .skip 336
+VPROBE_IN: .skip 464
     .global VPROBE_OUT
-VPROBE_OUT: .skip 336
+VPROBE_OUT: .skip 464
     .global VPROBE_SEEN
-VPROBE_SEEN: .skip 336
+VPROBE_SEEN: .skip 464
     .global VPROBE_RET
-VPROBE_RET: .skip 336
+VPROBE_RET: .skip 464
     .global VPROBE_TARGET
 VPROBE_TARGET: .skip 8
     .global VPROBE_SAVED_RSP
 VPROBE_SAVED_RSP: .skip 8
     .global VPROBE_FAKE_ENTRIES
 VPROBE_FAKE_ENTRIES: .skip 8
+    .global VPROBE_AVX
+VPROBE_AVX: .skip 8
 
     .text
     .global vprobe_call
@@ -112,6 +116,17 @@ vprobe_call:
     movdqu xmm5, xmmword ptr [rip + VPROBE_IN + 208]
     movdqu xmm6, xmmword ptr [rip + VPROBE_IN + 224]
     movdqu xmm7, xmmword ptr [rip + VPROBE_IN + 240]
+    cmp qword ptr [rip + VPROBE_AVX], 0
+    je 2f
+    vinsertf128 ymm0, ymm0, xmmword ptr [rip + VPROBE_IN + 336], 1
+    vinsertf128 ymm1, ymm1, xmmword ptr [rip + VPROBE_IN + 352], 1
+    vinsertf128 ymm2, ymm2, xmmword ptr [rip + VPROBE_IN + 368], 1
+    vinsertf128 ymm3, ymm3, xmmword ptr [rip + VPROBE_IN + 384], 1
+    vinsertf128 ymm4, ymm4, xmmword ptr [rip + VPROBE_IN + 400], 1
+    vinsertf128 ymm5, ymm5, xmmword ptr [rip + VPROBE_IN + 416], 1
+    vinsertf128 ymm6, ymm6, xmmword ptr [rip + VPROBE_IN + 432], 1
+    vinsertf128 ymm7, ymm7, xmmword ptr [rip + VPROBE_IN + 448], 1
+2:
     mov rdi, qword ptr [rip + VPROBE_IN + 0]
     mov rsi, qword ptr [rip + VPROBE_IN + 8]
     mov rdx, qword ptr [rip + VPROBE_IN + 16]
@@ -136,6 +151,12 @@ vprobe_after_call:
     mov qword ptr [rip + VPROBE_OUT + 112], rsp
     movdqu xmmword ptr [rip + VPROBE_OUT + 128], xmm0
     movdqu xmmword ptr [rip + VPROBE_OUT + 144], xmm1
+    cmp qword ptr [rip + VPROBE_AVX], 0
+    je 3f
+    vextractf128 xmmword ptr [rip + VPROBE_OUT + 336], ymm0, 1
+    vextractf128 xmmword ptr [rip + VPROBE_OUT + 352], ymm1, 1
+    vzeroupper
+3:
     mov qword ptr [rip + VPROBE_OUT + 48], rbx
     mov qword ptr [rip + VPROBE_OUT + 56], rbp
     mov qword ptr [rip + VPROBE_OUT + 64], r12
@@ -191,6 +212,20 @@ vprobe_fake:
     mov qword ptr [rip + VPROBE_SEEN + 112], rsp
     mov qword ptr [rip + VPROBE_SEEN + 296], r10
     mov qword ptr [rip + VPROBE_SEEN + 304], r11
+    pushfq
+    pop rax
+    mov qword ptr [rip + VPROBE_SEEN + 288], rax
+    cmp qword ptr [rip + VPROBE_AVX], 0
+    je 4f
+    vextractf128 xmmword ptr [rip + VPROBE_SEEN + 336], ymm0, 1
+    vextractf128 xmmword ptr [rip + VPROBE_SEEN + 352], ymm1, 1
+    vextractf128 xmmword ptr [rip + VPROBE_SEEN + 368], ymm2, 1
+    vextractf128 xmmword ptr [rip + VPROBE_SEEN + 384], ymm3, 1
+    vextractf128 xmmword ptr [rip + VPROBE_SEEN + 400], ymm4, 1
+    vextractf128 xmmword ptr [rip + VPROBE_SEEN + 416], ymm5, 1
+    vextractf128 xmmword ptr [rip + VPROBE_SEEN + 432], ymm6, 1
+    vextractf128 xmmword ptr [rip + VPROBE_SEEN + 448], ymm7, 1
+4:
     movdqu xmmword ptr [rip + VPROBE_SEEN + 128], xmm0
     movdqu xmmword ptr [rip + VPROBE_SEEN + 144], xmm1
     movdqu xmmword ptr [rip + VPROBE_SEEN + 160], xmm2
@@ -213,12 +248,14 @@ vprobe_fake:
     mov qword ptr [rip + VPROBE_SEEN + 320], rax
     mov rax, qword ptr [rsp + 48]
     mov qword ptr [rip + VPROBE_SEEN + 312], rax
-    pushfq
-    pop rax
-    mov qword ptr [rip + VPROBE_SEEN + 288], rax
     lock inc qword ptr [rip + VPROBE_FAKE_ENTRIES]
     movdqu xmm0, xmmword ptr [rip + VPROBE_RET + 128]
     movdqu xmm1, xmmword ptr [rip + VPROBE_RET + 144]
+    cmp qword ptr [rip + VPROBE_AVX], 0
+    je 5f
+    vinsertf128 ymm0, ymm0, xmmword ptr [rip + VPROBE_RET + 336], 1
+    vinsertf128 ymm1, ymm1, xmmword ptr [rip + VPROBE_RET + 352], 1
+5:
     mov rdx, qword ptr [rip + VPROBE_RET + 104]
     mov rax, qword ptr [rip + VPROBE_RET + 96]
     ret
@@ -255,6 +292,9 @@ pub fn random_regs(rng: &mut crate::rng::Rng) -> Regs {
     for i in 0..8 {
         r.xmm[i] = [g(), g()];
     }
+    for i in 0..8 {
+        r.ymm_hi[i] = [g() | 1, g()];
+    }
     for i in 0..4 {
         r.stack[i] = g();
     }
@@ -271,6 +311,7 @@ pub unsafe fn probed_call(target: usize, input: &Regs, ret: &Regs) -> (Regs, Reg
     std::ptr::write_volatile(std::ptr::addr_of_mut!(VPROBE_OUT), Regs::zero());
     std::ptr::write_volatile(std::ptr::addr_of_mut!(VPROBE_SEEN), Regs::zero());
     std::ptr::write_volatile(std::ptr::addr_of_mut!(VPROBE_TARGET), target as u64);
+    std::ptr::write_volatile(std::ptr::addr_of_mut!(VPROBE_AVX), has_avx() as u64);
     let e0 = std::ptr::read_volatile(std::ptr::addr_of!(VPROBE_FAKE_ENTRIES));
     vprobe_call();
     let e1 = std::ptr::read_volatile(std::ptr::addr_of!(VPROBE_FAKE_ENTRIES));
@@ -280,4 +321,9 @@ pub unsafe fn probed_call(target: usize, input: &Regs, ret: &Regs) -> (Regs, Reg
 }
 pub unsafe fn saved_rsp() -> u64 {
     std::ptr::read_volatile(std::ptr::addr_of!(VPROBE_SAVED_RSP))
+}
+
+/// 256-bit vector arguments (ymm0-7) and returns (ymm0:ymm1) are probed only where the CPU has AVX
+pub fn has_avx() -> bool {
+    std::is_x86_feature_detected!("avx")
 }
